@@ -115,6 +115,14 @@ func c33Gen(r *vu.RNG, n int, emit func(string)) {
 				if len(es) > 0 {
 					e = strings.Join(es, ",")
 				}
+				// the entries are decoded again as one [][]byte behind their count: screen that too
+				var cat []byte
+				for _, x := range es {
+					cat = append(cat, vu.UnHex(x)...)
+				}
+				if vc.MaxDeclared(vc.ParseDesc("sl(bytes)"), append(vc.Compact(uint64(len(es))), cat...)) > 1<<20 {
+					e = "-"
+				}
 				blocks = append(blocks, h+"/"+e)
 			}
 			emit(strings.TrimSpace("bresp " + strings.Join(blocks, ";")))
